@@ -16,6 +16,7 @@ package main
 
 import (
 	"context"
+	"errors"
 	"flag"
 	"fmt"
 	"math/rand"
@@ -411,6 +412,156 @@ func loopCases(rng *rand.Rand, n int) {
 	wg.Wait()
 }
 
+// ---------------------------------------------------------------- generation end with queued requests
+//
+// loopend: the real commitLoopImmediate with requests still queued in Reader.commits when the
+// generation context ends.  The first call is answered with an error, so the loop sleeps in its
+// 100 ms back-off; meanwhile the other calls are queued and the context is cancelled.  After
+// the first commit the loop's select sees both ctx.Done and the queue ready (Go picks at
+// random): k requests are handled one by one, the rest is drained into the final commit.  The
+// observation is (i) checked directly: a call answered nil must be covered by an accepted
+// OffsetCommit, and (ii) given to the model driver, which looks for a schedule k of the model
+// that reproduces it exactly.
+func loopEndCases(rng *rand.Rand, n int) {
+	var wg sync.WaitGroup
+	sem := make(chan struct{}, 16)
+	for i := 0; i < n; i++ {
+		nreq := 2 + rng.Intn(5)
+		perm := rng.Perm(6)
+		reqs := make([][]tpo, nreq)
+		for j := range reqs {
+			tp := perm[j%6]
+			reqs[j] = []tpo{{Topic: topics[tp/3], Partition: tp % 3, Offset: rng.Int63n(40)}}
+			if j >= 6 {
+				reqs[j][0].Offset += 50
+			}
+		}
+		outcomes := []int{[]int{16, 27, 22, -1}[rng.Intn(4)], 0}
+		for len(outcomes) < nreq+3 {
+			outcomes = append(outcomes, 0)
+		}
+		if rng.Intn(4) == 0 {
+			outcomes[2+rng.Intn(nreq)] = []int{16, 25, -1}[rng.Intn(3)]
+		}
+		wg.Add(1)
+		go func() {
+			defer wg.Done()
+			sem <- struct{}{}
+			defer func() { <-sem }()
+			c := &kafka.VerifC03Coord{Outcomes: append([]int(nil), outcomes...), Seen: make(chan struct{}, 64)}
+			l := kafka.VerifC03NewLoop(0, c, 7, "m-1")
+			rets := make([]string, nreq)
+			late := make([]bool, nreq)
+			var cw sync.WaitGroup
+			call := func(k int) {
+				cw.Add(1)
+				go func() {
+					defer cw.Done()
+					ctx, cancel := context.WithTimeout(context.Background(), 8*time.Second)
+					defer cancel()
+					err := l.Commit(ctx, reqs[k])
+					if err == nil {
+						rets[k] = "nil"
+					} else {
+						rets[k] = "err"
+						// the request reached Reader.commits only after the loop had exited
+						// (this goroutine was not scheduled for > 100 ms): nobody answers it
+						late[k] = errors.Is(err, context.DeadlineExceeded)
+					}
+				}()
+			}
+			call(0)
+			hang := false
+			select {
+			case <-c.Seen: // first attempt answered with an error: the loop is in its back-off
+			case <-time.After(10 * time.Second):
+				hang = true
+			}
+			for k := 1; k < nreq; k++ {
+				call(k)
+				time.Sleep(3 * time.Millisecond)
+			}
+			time.Sleep(5 * time.Millisecond)
+			if !l.End(30 * time.Second) {
+				hang = true
+			}
+			cw.Wait()
+			rq, ans := c.VerifC03Snapshot()
+			var parts []string
+			for i, r := range rq {
+				parts = append(parts, "O"+fTPO(r)+"="+kvfmt.I(int64(ans[i])))
+			}
+			// the property on the observation itself:
+			//  - a call answered nil is covered by an ACCEPTED OffsetCommit at >= its offset + 1
+			//  - every offset on the wire is offset+1 of a queued call (nothing beyond what was asked)
+			verdict := "ok"
+			for k, r := range rets {
+				if r != "nil" {
+					continue
+				}
+				covered := false
+				for i, q := range rq {
+					if ans[i] != 0 {
+						continue
+					}
+					for _, e := range q {
+						if e.Topic == reqs[k][0].Topic && e.Partition == reqs[k][0].Partition && e.Offset >= reqs[k][0].Offset+1 {
+							covered = true
+						}
+					}
+				}
+				if !covered {
+					verdict = fmt.Sprintf("NILNOTRECORDED:call=%d", k)
+				}
+			}
+			for _, q := range rq {
+				for _, e := range q {
+					asked := false
+					for _, r := range reqs {
+						if e.Topic == r[0].Topic && e.Partition == r[0].Partition && e.Offset == r[0].Offset+1 {
+							asked = true
+						}
+					}
+					if !asked && verdict == "ok" {
+						verdict = "UNEXPLAINED:" + fTPO([]tpo{e})
+					}
+				}
+			}
+			if hang {
+				verdict = "HANG"
+			}
+			anyLate := false
+			for _, x := range late {
+				anyLate = anyLate || x
+			}
+			var toks []string
+			for _, r := range reqs {
+				toks = append(toks, "c="+fTPO(r))
+			}
+			os := make([]string, len(outcomes))
+			for i, o := range outcomes {
+				os[i] = kvfmt.I(int64(o))
+			}
+			f := []string{fmt.Sprintf("queued=%d", nreq-1)}
+			if len(rq) > 2 && len(rq[len(rq)-1]) >= 2 {
+				f = append(f, "merged-final")
+			}
+			if len(rq) > 3 {
+				f = append(f, "some-handled-singly")
+			}
+			obs := strings.Join(parts, ";") + "~" + strings.Join(rets, ",")
+			if anyLate || hang {
+				// outside the scripted situation (machine stall): keep the property verdict,
+				// do not ask the model for a schedule
+				obs = "skip"
+				f = append(f, "late-arrival")
+			}
+			emit("loopend", "s "+strings.Join(toks, " ")+" a="+strings.Join(os, ",")+" obs="+obs, verdict, strings.Join(f, ","))
+		}()
+	}
+	wg.Wait()
+}
+
 // ---------------------------------------------------------------- end-to-end histories
 
 type logHook struct {
@@ -480,7 +631,7 @@ func newReader(b *groupfake.Broker, sc scen, client string) *kafka.Reader {
 		ReadLagInterval:   -1,
 		MaxAttempts:       3,
 		StartOffset:       sc.start,
-		QueueCapacity:     4,
+		QueueCapacity:     8,
 		Logger:            logHook{b, client},
 	}
 	if sc.topics == 1 {
@@ -732,6 +883,99 @@ func runEvict(b *groupfake.Broker, sc scen, fs map[string]bool, rng *rand.Rand) 
 	return "ok"
 }
 
+// ---- synchronous commits racing with the end of the generation: several goroutines call
+// CommitMessages (distinct partitions) while the commit loop is busy (OffsetCommit answers are
+// delayed) and the generation is ended by a rebalance notice on the heartbeat, an eviction or
+// Close.  Every return is recorded (ccall/cret) and, after each round, compared with what the
+// coordinator has recorded.
+func runCommitAtEnd(b *groupfake.Broker, sc scen, fs map[string]bool, rng *rand.Rand) string {
+	rounds := 5
+	for p := 0; p < sc.parts; p++ {
+		b.Append(topics[0], p, rounds)
+	}
+	m := &member{0, "c0", newReader(b, sc, "c0"), nil}
+	closed := false
+	defer func() {
+		if !closed {
+			m.r.Close()
+		}
+	}()
+	byPart := map[int][]kafka.Message{}
+	got := 0
+	dl := time.Now().Add(10 * time.Second)
+	for got < rounds*sc.parts && time.Now().Before(dl) {
+		if m.fetch(b, 100*time.Millisecond) {
+			x := m.held[len(m.held)-1]
+			byPart[x.Partition] = append(byPart[x.Partition], x)
+			got++
+		}
+	}
+	if got < rounds*sc.parts {
+		return fmt.Sprintf("STALLED:only %d of %d records delivered within the watchdog", got, rounds*sc.parts)
+	}
+	b.SetFault(func(api, client, mem string) groupfake.Fault {
+		if api == "ocommit" {
+			return groupfake.Fault{Delay: 25 * time.Millisecond}
+		}
+		return groupfake.Fault{}
+	})
+	for round := 0; round < rounds; round++ {
+		if !waitCond(8*time.Second, func() bool { return b.MemberOf("c0") != "" && b.State() == "Stable" }) {
+			return "STALLED:group did not become stable within the watchdog"
+		}
+		time.Sleep(20 * time.Millisecond) // let the new generation's commit loop start
+		type res struct {
+			msg kafka.Message
+			err error
+		}
+		out := make(chan res, sc.parts)
+		for p := 0; p < sc.parts; p++ {
+			if len(byPart[p]) <= round {
+				continue
+			}
+			x := byPart[p][round]
+			go func() { out <- res{x, m.commit(b, []kafka.Message{x})} }()
+		}
+		time.Sleep(time.Duration(2+rng.Intn(10)) * time.Millisecond)
+		how := round % 3
+		if round == rounds-1 {
+			how = 3
+		}
+		switch how {
+		case 0, 2:
+			b.ForceRebalance("script")
+			fs["end-by-rebalance"] = true
+		case 1:
+			if id := b.MemberOf("c0"); id != "" {
+				b.Evict(id, "script")
+				fs["end-by-eviction"] = true
+			}
+		case 3:
+			closed = true
+			go m.r.Close()
+			fs["end-by-close"] = true
+		}
+		for p := 0; p < sc.parts; p++ {
+			if len(byPart[p]) <= round {
+				continue
+			}
+			select {
+			case r := <-out:
+				if r.err != nil {
+					fs["commiterr"] = true
+					continue
+				}
+				if c, ok := b.Committed(r.msg.Topic, r.msg.Partition); !ok || c < r.msg.Offset+1 {
+					return fmt.Sprintf("NILNOTRECORDED:round=%d partition=%d offset=%d", round, r.msg.Partition, r.msg.Offset)
+				}
+			case <-time.After(15 * time.Second):
+				return "STALLED:a synchronous CommitMessages did not return within the watchdog"
+			}
+		}
+	}
+	return "ok"
+}
+
 func runScenario(seed int64, sc scen) (args string, feats string, verdict string) {
 	verdict = "ok"
 	rng := rand.New(rand.NewSource(seed))
@@ -748,6 +992,8 @@ func runScenario(seed int64, sc scen) (args string, feats string, verdict string
 		verdict = runCommitCodes(b, sc, fs)
 	} else if sc.scripted == "evict" {
 		verdict = runEvict(b, sc, fs, rng)
+	} else if sc.scripted == "commit-at-end" {
+		verdict = runCommitAtEnd(b, sc, fs, rng)
 	} else {
 		for i := 0; i < sc.topics; i++ {
 			for p := 0; p < sc.parts; p++ {
@@ -1032,6 +1278,10 @@ func e2eCases(seed int64, n int) {
 			}
 		}
 		for i := 0; i < 6; i++ {
+			scs = append(scs, scen{name: "commit-at-generation-end", sync: true, start: kafka.FirstOffset, members: 1, topics: 1,
+				parts: 3 + rng.Intn(4), scripted: "commit-at-end"})
+		}
+		for i := 0; i < 6; i++ {
 			scs = append(scs, scen{name: "evict-liveness", sync: i%2 == 0, start: kafka.FirstOffset, members: 1 + i%2, topics: 1,
 				parts: 1 + rng.Intn(3), scripted: "evict"})
 		}
@@ -1223,13 +1473,15 @@ func main() {
 	n := flag.Int("n", 200, "number of step-level cases per op")
 	nloop := flag.Int("loops", 16, "commit-loop scripts")
 	ne2e := flag.Int("e2e", 12, "end-to-end scenarios")
+	nend := flag.Int("loopend", 12, "commit-loop scripts with requests queued at generation end")
 	nmrun := flag.Int("mrun", 60, "random model runs")
 	flag.Parse()
 	rng := rand.New(rand.NewSource(*seed))
 	stepCases(rng, *n)
 	mrunCases(rng, *nmrun)
 	var wg sync.WaitGroup
-	wg.Add(2)
+	wg.Add(3)
+	go func() { defer wg.Done(); loopEndCases(rand.New(rand.NewSource(*seed+3)), *nend) }()
 	go func() { defer wg.Done(); loopCases(rand.New(rand.NewSource(*seed+1)), *nloop) }()
 	go func() { defer wg.Done(); e2eCases(*seed+2, *ne2e) }()
 	wg.Wait()
